@@ -38,7 +38,7 @@ from vlib.runner import VERIF
 
 ID = "C09"
 LEVEL = "exploration"
-BUDGET = {"quick": 75, "thorough": 900}
+BUDGET = {"quick": 200, "thorough": 1200}
 RULE = (
     "load case = (label text ending in END, separator, trailing bytes); every way of "
     "handing it over is one evaluation. dump case = (module spec, encoder options, "
@@ -111,12 +111,13 @@ def labels0(draw):
             if tk[1] == "end":
                 toks = toks[:i]
                 break
-        doc2 = dict(tokens=toks + [gt.T("END", "end")], expected=None, tail="")
+        end = draw(st.sampled_from(["END", "END", "End", "end", "eNd"]))
+        doc2 = dict(tokens=toks + [gt.T(end, "end")], expected=None, tail="")
         t = gt.seeded_layout(doc2, "default", draw(st.integers(0, 2 ** 32)), "full")
         k = t.upper().rfind("END")
         t = t[:k + 3]
         if not t.isascii() or not t.upper().endswith("END") or "#" not in t:
-            t = "a = 1 # one\nb = 2 # two -\nc = 3\nEND"
+            t = "a = 1 # one\nb = 2 # two -\nc = 3\n" + end
         return t
     if src == "utf8":
         # a UTF-8 label with characters beyond ASCII (units like the micro sign,
@@ -269,7 +270,7 @@ def load_all_ways(label, data):
     for way in WAYS:
         lf = counting_lexer()
         try:
-            with backstop(120):
+            with backstop(900):
                 if way == "path-str":
                     m = pvl.load(path, lexer_fn=lf)
                 elif way == "path-Path":
@@ -542,7 +543,7 @@ def load_strict(gname, label, data):
         lf = counting_lexer()
         kw = dict(grammar=_grammar(gname), lexer_fn=lf)
         try:
-            with backstop(120):
+            with backstop(900):
                 if way == "path-str":
                     m = pvl.load(path, **kw)
                 elif way == "text-stream":
@@ -637,6 +638,9 @@ FIXED_LABELS = [
     "/* c\rd */ a = 1\rEND", "a = 1 <m\rs>\nEND", "a = 1\n\rEND", "a = 1\x0b\x0cb = 2\x0cEND",
     "a = \"caf\u00e9\"\rEND", "note = \"a -\r   b\"\rEND",
     "a = 1 # ---\nb = 2\nEND", "# ---- geometry ----\na = 1\nEND", "a = 1 # x-\r\nEND",
+    # the End Statement as ISIS writes it, and in small letters
+    "a = 1 # ---\nb = 2\nEnd", "# ---- Core ----\nObject = IsisCube\n  a = 1\nEnd_Object\nEnd",
+    "a = 1 # x -\nend", "Group = g\n  k = v # --\nEnd_Group\nEnd", "a = (1, # -\n 2)\neNd",
     "\ufeffa = 1\nEND", "\ufeffPDS_VERSION_ID = PDS3\r\nb = \"caf\u00e9\"\r\nEND", "\ufeff\nEND",
 ]
 FIXED_TAILS = [b"", b"\n", b"\r", b"\n\xff", b"\nfoo bar = baz", b" # -\n x y z", b"\r\nbinary\x00\xfe", b" \xfe", b"\r\xc3"]
